@@ -1,14 +1,13 @@
-\* C25 exhaustive: 3 goroutines x 2 calls on a client without sessions (peer-sharing as repaired, local-tx-submission)
+\* C25 a handler that hands an opaque reply over and leaves it in place for the ordinary hand-off (two sends to the result channel): OwnAnswer must be violated, the NEXT call receives the duplicate
 CONSTANTS
-  G = 3
+  G = 1
   N = 2
-  Ops = {"qa"}
+  Ops = {"qa", "qx"}
   Mutex = TRUE
   AutoAcquire = FALSE
   RelRule = FALSE
   Hist = FALSE
   OnOpaque = {"raw"}
-  DupOpaque = FALSE
+  DupOpaque = TRUE
 SPECIFICATION Spec
 INVARIANTS TypeOK OwnAnswer MutexExcl QueryInSession OutShape RelLegal ErrOnlyWhenDead ErrSuffix OpaqueOutcome EmitRow
-PROPERTIES Termination
